@@ -741,6 +741,19 @@ def gen_steps(rng, sid, big):
     c["x"], c["y"] = gen_data(rng, n, d, k, rng.choice(["int", "dyadic"]))
     return c
 
+def gen_steps_shrink(rng, sid, big, t, k):
+    """streams aimed at the case splits of the shrinking code: shrink after every 1-3 steps, many variables at a bound
+    (small C on overlapping classes: at C; separable blobs with large C: at 0, whole examples removed), addDeltaLinear events"""
+    n = rng.randint(max(k + 1, 4), 8 if not big else 12); d = rng.randint(1, 2)
+    style = rng.choice(["upper", "zero", "zero", "mixed"])
+    c = {"id": sid, "type": t, "k": k, "n": n, "d": d, "kernel": rng.choice(["lin", "lin", "rbf"]),
+         "C": {"upper": rng.choice([0.125, 0.25]), "zero": rng.choice([8.0, 100.0]), "mixed": 1.0}[style],
+         "eps": rng.choice([1e-2, 1e-3]), "sp": rng.choice([1, 2, 2, 3]), "nsteps": rng.choice([40, 80]), "rand": rng.choice([0, 0, 1, 2, 3]),
+         "seed": rng.randint(1, 10 ** 6)}
+    c["gamma"] = rng.choice([0.25, 1.0]) if c["kernel"] == "rbf" else 0.0
+    c["x"], c["y"] = gen_data(rng, n, d, k, "blobs" if style == "zero" else rng.choice(["int", "dyadic"]))
+    return c
+
 def steps_line(c):
     return " ".join(["STEPS", c["id"], c["type"], hx(c["C"]), hx(c["eps"]), str(c["sp"]), str(c["nsteps"]), str(c["rand"]), str(c["seed"]),
                      c["kernel"], hx(c["gamma"]), str(c["n"]), str(c["d"])] + data_tokens(c))
@@ -861,6 +874,89 @@ def monitor_steps(c, out, nm, K):
     return bad[:1], steps
 
 # ------------------------------------------------------------------------------------------------
+# state model (C16State.v): full positional states of the implementation, one model operation at a time
+
+def split_state_trace(out):
+    """-> (model input lines, [(op line, expected MS line)], [(MS line, MK line)])"""
+    inp = []; pairs = []; kpos = []; pend = None; lastms = None
+    for l in out:
+        h = l[:3]
+        if h in ("MH ", "MI ", "MO "):
+            inp.append(l)
+            if h != "MH ": pend = l
+        elif h == "MS ":
+            inp.append(l); lastms = l
+            if pend is not None: pairs.append((pend, l)); pend = None
+        elif h == "MK " and lastms is not None:
+            kpos.append((lastms, l))
+    return inp, pairs, kpos
+
+def parse_MS(l, n, P):
+    t = l.split(); nv = n * P
+    s = {"actvar": int(t[2]), "actex": int(t[3]), "unshr": int(t[4])}
+    vb = 6; col = lambda o, f: [f(t[vb + 7 * v + o]) for v in range(nv)]
+    s["alpha"] = col(0, fh); s["grad"] = col(1, fh); s["lin"] = col(2, fh); s["vex"] = col(3, int); s["vp"] = col(4, int); s["vidx"] = col(5, int); s["vdiag"] = col(6, fh)
+    eb = vb + 7 * nv + 1; w = 5 + 2 * P
+    ecol = lambda o, f: [f(t[eb + w * e + o]) for e in range(n)]
+    s["eorig"] = ecol(0, int); s["ey"] = ecol(1, int); s["eact"] = ecol(2, int); s["evsum"] = ecol(3, fh); s["ediag"] = ecol(4, fh)
+    s["evar"] = [[int(t[eb + w * e + 5 + p]) for p in range(P)] for e in range(n)]
+    s["eavar"] = [[int(t[eb + w * e + 5 + P + p]) for p in range(P)] for e in range(n)]
+    return s
+
+def ms_diff(exp, got):
+    """first differing token of two MS lines (numerically equal hex floats are equal; nan == nan)"""
+    if exp == got: return None
+    te, tg = exp.split(), got.split()
+    if len(te) != len(tg): return "different number of fields (%d vs %d)" % (len(te), len(tg))
+    for i, (a, b) in enumerate(zip(te, tg)):
+        if a == b: continue
+        try:
+            x, y = fh(a), fh(b)
+            if x == y or (x != x and y != y): continue
+        except ValueError: pass
+        return "field %d: implementation %s, model %s" % (i, a, b)
+    return None
+
+def monitor_tables(c, ms, nm, K, simplex):
+    """spec monitor on one positional state of the implementation, independent of the model: the tables are
+    permutations, cross indices agree on both sides, per-variable data belongs to the variable, active counts"""
+    n, k = c["n"], c["k"]; P = cardP(c["type"], k); nv = n * P
+    s = parse_MS(ms, n, P)
+    if sorted(s["eorig"]) != list(range(n)): return "example table is not a permutation of the data set: index = %s" % s["eorig"]
+    if not (0 <= s["actvar"] <= nv and 0 <= s["actex"] <= n): return "active counts out of range"
+    seen = set()
+    for e in range(n):
+        if s["ey"][e] != c["y"][s["eorig"][e]]: return "example at position %d (data index %d) carries label %d, data set says %d" % (e, s["eorig"][e], s["ey"][e], c["y"][s["eorig"][e]])
+        if not 0 <= s["eact"][e] <= P: return "active count of example %d out of range" % e
+        for p in range(P):
+            v = s["evar"][e][p]
+            if not 0 <= v < nv: return "var[%d][%d] out of range" % (e, p)
+            if s["vex"][v] != e or s["vp"][v] != p: return "cross index: example %d lists variable %d at class position %d, the variable says (example %d, p %d)" % (e, v, p, s["vex"][v], s["vp"][v])
+            seen.add(v)
+        for b in range(P):
+            v = s["eavar"][e][b]
+            if not 0 <= v < nv: return "avar[%d][%d] out of range" % (e, b)
+            if s["vex"][v] != e or s["vidx"][v] != b: return "cross index: example %d lists variable %d in active-list slot %d, the variable says (example %d, index %d)" % (e, v, b, s["vex"][v], s["vidx"][v])
+            if (b < s["eact"][e]) != (v < s["actvar"]): return "example %d: slot %d %s the active part of the list but variable %d is %s" % (e, b, "inside" if b < s["eact"][e] else "outside", v, "active" if v < s["actvar"] else "inactive")
+        if s["eact"][e] > 0 and e >= s["actex"]: return "inactive example %d owns active variables" % e
+    if len(seen) != nv: return "variable table is not a permutation"
+    for v in range(nv):
+        e = s["vex"][v]; i = s["eorig"][e]; y = c["y"][i]; p = s["vp"][v]
+        want = Mentry(nm, c["type"], k, P, y, p, y, p) * K[i][i]
+        if s["vdiag"][v] != want and not abs(s["vdiag"][v] - want) <= 1e-15 * abs(want): return "variable %d (data index %d, p %d): diagonal %r, M*k = %r" % (v, i, p, s["vdiag"][v], want)
+    return None
+
+def monitor_kpos(c, ms, mk, K):
+    n = c["n"]; t = ms.split(); P = cardP(c["type"], c["k"])
+    eb = 6 + 7 * n * P + 1; w = 5 + 2 * P
+    orig = [int(t[eb + w * e]) for e in range(n)]
+    kt = mk.split()[2:]
+    for a in range(n):
+        for b in range(n):
+            got = fh(kt[a * n + b]); want = K[orig[a]][orig[b]]
+            if got != want and not abs(got - want) <= 1e-15 * abs(want):
+                return "kernel matrix entry(%d,%d)=%r after shrinking, examples there have data indices %d,%d with k=%r" % (a, b, got, orig[a], orig[b], want)
+    return None
 
 def main():
     ck = Check(PID)
@@ -900,6 +996,12 @@ def main():
                     elif l.startswith("STEPS "): step_cfgs.append(parse_steps_line(l))
                     elif l and l.split()[0] in ("EDGE", "BOX", "TRI", "GAIN", "LINE", "SPARSE"): free_lines.append(l)
         for i in range(600 if big else 150): step_cfgs.append(gen_steps(rng, "s%d" % i, big))
+        si = 0; rng_main = rng; rng = __import__("random").Random(ck.seed * 1000003 + 1600)   # own stream: the older streams keep their cases
+        for rep in range(6 if big else 2):                  # shrinking streams: every formulation x 2..5 classes
+            for t in [x for x in TYPES if x != "OVA"]:
+                for k in (2, 3, 4, 5):
+                    step_cfgs.append(gen_steps_shrink(rng, "h%d" % si, big, t, k)); si += 1
+        rng = rng_main
         gi = 0
         for rep in range(10 if big else 3):                 # every formulation in every stream
             for t in TYPES:
@@ -954,6 +1056,7 @@ def main():
             elif tk[0] in ("EXC", "STDEXC"): byid.setdefault(tk[1], []).append(l)
             elif cur is not None: cur.append(l)
         model_in = []; owner = []
+        st_in = []; st_pairs = []; st_mon = 0; st_ops = {}; st_tables = 0
         for c in step_cfgs:
             out = byid.get(c["id"])
             if out is None or not any(l.startswith("END ") or l.startswith("EXC") or l.startswith("STDEXC") for l in out):
@@ -997,6 +1100,45 @@ def main():
                              "spec monitor fails on the implementation (step-driven %s): %s" % ("QpMcSimplexDecomp" if c["type"] in SIMPLEX else "QpMcBoxDecomp", msg))
             else:
                 for inp, exp, rawl in steps: model_in.append(inp); owner.append((c, exp, rawl))
+                # state model: spec monitor on every positional state, then the model operations
+                sinp, spairs, skpos = split_state_trace(out)
+                msg = None
+                for opl, ms in spairs:
+                    msg = monitor_tables(c, ms, nm, K, c["type"] in SIMPLEX); st_tables += 1
+                    if msg: msg = "after '%s': %s" % (" ".join(opl.split()[2:5]), msg); break
+                if not msg:
+                    for ms, mk in skpos:
+                        msg = monitor_kpos(c, ms, mk, K)
+                        if msg: break
+                if msg:
+                    st_mon += 1
+                    skey = ("tables", c["type"] in SIMPLEX)
+                    if skey not in step_reported:
+                        step_reported.add(skey)
+                        cf = ck.write_replay("steps_%s.txt" % c["id"], "# %s\n%s\n" % (msg, steps_line(c)))
+                        ck.violation("steps:tables:%s:%s" % (c["type"], "shrink" if c["sp"] else "noshrink"),
+                                     {"case_file": cf, "case": steps_line(c), "observed": msg, "replay_cmd": "python3 tools/c16.py --replay " + cf},
+                                     "spec monitor fails on the implementation (step-driven %s, variable/example tables): %s" % ("QpMcSimplexDecomp" if c["type"] in SIMPLEX else "QpMcBoxDecomp", msg))
+                else:
+                    st_in += sinp; st_pairs += [(c, opl, ms) for opl, ms in spairs]
+        st_dis = []
+        if st_in:
+            rc3, sout, serr = run_lines(model, st_in, os.path.join(tmpd, "state_model_in.txt"), timeout=1500)
+            if rc3 != 0 or len(sout) != len(st_pairs): raise RuntimeError("model driver failed on the state lines (%d outputs for %d operations): %s" % (len(sout), len(st_pairs), serr[-500:]))
+            for (c, opl, ms), got in zip(st_pairs, sout):
+                kind = opl.split()[2] if opl.startswith("MO ") else "init"
+                st_ops[kind] = st_ops.get(kind, 0) + 1
+                d = ms_diff(ms, got)
+                if d: st_dis.append((c, opl, d))
+        if st_dis and not mon_steps and not st_mon:
+            c, opl, d = st_dis[0]
+            cf = ck.write_replay("state_%s.txt" % c["id"], "# %s : %s\n%s\n" % (" ".join(opl.split()[:5]), d, steps_line(c)))
+            ck.violation("correspondence:state", {"case_file": cf, "case": steps_line(c), "operation": opl[:200], "difference": d,
+                                            "broken": "correspondence C16State (mstep / init_state) vs QpMcBoxDecomp / QpMcSimplexDecomp", "replay_cmd": "python3 tools/c16.py --replay " + cf},
+                         "correspondence C16State.mstep vs the real %s no longer checks (%d operations differ, first: %s: %s); the spec monitors pass on every explored input"
+                         % ("QpMcSimplexDecomp" if c["type"] in SIMPLEX else "QpMcBoxDecomp", len(st_dis), " ".join(opl.split()[:5]), d), no_input=True)
+        ck.oblige("state model C16State (gradient, tables, shrink/unshrink, addDeltaLinear, constructor) vs the real solvers, one operation at a time from the implementation's own state: %d operations %s; table monitor on %d states"
+                  % (len(st_pairs), st_ops, st_tables), not st_dis and not st_mon, "" if not (st_dis or st_mon) else "%d differing operations, %d monitor failures" % (len(st_dis), st_mon))
         if model_in:
             rc2, mout, merr = run_lines(model, model_in, os.path.join(tmpd, "steps_model_in.txt"))
             if rc2 != 0 or len(mout) != len(model_in): raise RuntimeError("model driver failed on the step lines: " + merr[-500:])
@@ -1066,7 +1208,8 @@ def main():
         ck.notes["groups_hitting_known_findings"] = gknown
 
     cfgs = stats.get("configs", set())
-    ck.cov["evaluations"] = nfree + nnum + nsteps + stats.get("runs", 0)
+    ck.cov["evaluations"] = nfree + nnum + nsteps + stats.get("runs", 0) + (len(st_pairs) if step_cfgs else 0)
+    if step_cfgs: ck.notes["state_model_operations"] = st_ops
     ck.cov["distinct_nontrivial"] = len([x for x in cfgs if x[-1]]) + len(set(l.split()[0] for l in free_lines)) + len(set((c["type"], c["k"], bool(c["sp"])) for c in step_cfgs))
     ck.cov["rule"] = ("free: generated calls of the 5 analytic functions + QpSparseArray lookups (integers, dyadics, values around the 1e-12/1e-14 thresholds, indefinite blocks), exact model-vs-C++ comparison; "
                       "steps: step-driven runs of the real QpMcSimplexDecomp/QpMcBoxDecomp (8 formulations, 2-5 classes, n<=9 (14), shrink period 0/2/3/7, random working sets mixed in), every updateSMO is one evaluation; "
